@@ -72,6 +72,8 @@ enum Op {
     /// pull until end of stream
     Drain,
     Pause(u32),
+    /// a consumer that stalls for this many milliseconds (a slow disk, a long compression job)
+    Sleep(u32),
 }
 
 #[derive(Clone, Debug)]
@@ -94,6 +96,10 @@ struct History {
     close_after_admits: Option<usize>, // close early once this many admits were seen
     all_fit: bool,
     pause_scale: u32,
+    /// keep the queue open after the producers have finished until the consumers have emptied
+    /// it: a lost wake-up then shows as consumers parked in pull while items are queued
+    quiesce_before_close: bool,
+    stall_ms: u32,
 }
 
 fn gen_history(rng: &mut Rng, small: bool) -> History {
@@ -176,7 +182,61 @@ fn gen_history(rng: &mut Rng, small: bool) -> History {
         close_after_admits,
         all_fit,
         pause_scale: if small { 0 } else { rng.below(3) as u32 },
+        quiesce_before_close: close_after_admits.is_none() && rng.chance(1, 2),
+        stall_ms: 0,
     }
+}
+
+/// Several consumers, each with a fixed number of pulls, are parked before a burst of pushes
+/// arrives; pulls and pushes balance, nobody drains, the queue stays open until it is empty.
+/// Every accepted item has to reach one of the parked consumers: a push that fails to wake one
+/// leaves items queued and consumers parked.
+fn gen_burst_history(rng: &mut Rng, small: bool) -> History {
+    let consumers = if small { rng.usize(2, 3) } else { rng.usize(2, 7) };
+    let per_consumer = if small { 1 } else { rng.usize(1, 3) };
+    let total = consumers * per_consumer;
+    let producers = if small { 1 } else { rng.usize(1, 2).min(total) };
+    let style = rng.below(3); // 0 = try_push only, 1 = push only, 2 = mixed
+    let mut programs = Vec::new();
+    let mut next_id = 1u64;
+    for p in 0..producers {
+        let n = total / producers + if p < total % producers { 1 } else { 0 };
+        let mut prog = vec![if small { Op::Pause(3) } else { Op::Sleep(rng.usize(2, 6) as u32) }];
+        for _ in 0..n {
+            let it = Item { prio: rng.below(3) as i32, id: next_id, size: rng.usize(0, 8) };
+            next_id += 1;
+            let use_try = style == 0 || (style == 2 && rng.chance(1, 2));
+            prog.push(if use_try { Op::TryPush(it) } else { Op::Push(it) });
+        }
+        programs.push(prog);
+    }
+    for _ in 0..consumers {
+        programs.push((0..per_consumer).map(|_| Op::Pull).collect());
+    }
+    History { cap: 1 << 30, programs, producers, close_after_admits: None, all_fit: true, pause_scale: 0, quiesce_before_close: true, stall_ms: 0 }
+}
+
+/// A consumer that stalls for `stall_ms` while a producer is blocked on a full queue whose items
+/// all fit: nothing may be admitted beyond the capacity however long the stall lasts.
+fn gen_stall_history(rng: &mut Rng, stall_ms: u32) -> History {
+    let cap = *rng.pick(&[10usize, 64, 1000]);
+    let mut programs = Vec::new();
+    let producers = rng.usize(1, 2);
+    let mut next_id = 1u64;
+    for _ in 0..producers {
+        let mut prog = Vec::new();
+        for _ in 0..rng.usize(3, 6) {
+            let size = *rng.pick(&[cap / 2 + 1, cap / 2 + 1, cap, cap / 3 + 1]);
+            prog.push(Op::Push(Item { prio: rng.below(3) as i32, id: next_id, size }));
+            next_id += 1;
+        }
+        programs.push(prog);
+    }
+    programs.push(vec![Op::Sleep(stall_ms), Op::Pull, Op::Sleep(stall_ms / 4), Op::Drain]);
+    if rng.chance(1, 2) {
+        programs.push(vec![Op::Sleep(stall_ms + stall_ms / 8), Op::Drain]);
+    }
+    History { cap, programs, producers, close_after_admits: None, all_fit: true, pause_scale: 0, quiesce_before_close: rng.chance(1, 2), stall_ms }
 }
 
 fn pause(n: u32, scale: u32) {
@@ -198,6 +258,8 @@ struct Outcome {
     log: Vec<Ev>,
     final_snapshot: (usize, usize, bool),
     stuck: Option<String>,
+    /// recoverable (close releases everybody), so the history is still completed and checked
+    lost_wakeup: Option<String>,
 }
 
 fn admits_in_log() -> usize {
@@ -259,6 +321,7 @@ fn run_history(h: &History, wall_limit_ms: u64) -> Outcome {
                         }
                     },
                     Op::Pause(k) => pause(k, scale),
+                    Op::Sleep(ms) => std::thread::sleep(std::time::Duration::from_millis(ms as u64)),
                 }
                 // publish progressively so a stuck history can still be examined
                 *results[t].lock().unwrap() = out.clone();
@@ -273,17 +336,108 @@ fn run_history(h: &History, wall_limit_ms: u64) -> Outcome {
     // main thread: decide when to close
     let start = std::time::Instant::now();
     let mut stuck = None;
-    loop {
-        let pd = producers_done.load(Ordering::SeqCst);
-        let early = h.close_after_admits.map(|m| admits_in_log() >= m).unwrap_or(false);
-        if pd == h.producers || early {
-            break;
+    let mut lost_wakeup = None;
+    {
+        // While the producers work: a producer parked in push although its item fits (or the
+        // queue is empty), with no new event and every thread asleep in the kernel, missed the
+        // wake-up of the pull that made room. close() releases it, so the history continues.
+        let mut last_len = LOG.lock().unwrap().len();
+        let mut last_change = std::time::Instant::now();
+        let mut quiet_looks = 0u64;
+        loop {
+            let pd = producers_done.load(Ordering::SeqCst);
+            let early = h.close_after_admits.map(|m| admits_in_log() >= m).unwrap_or(false);
+            if pd == h.producers || early {
+                break;
+            }
+            let l = LOG.lock().unwrap().len();
+            if l != last_len {
+                last_len = l;
+                last_change = std::time::Instant::now();
+                quiet_looks = 0;
+            } else {
+                quiet_looks += 1;
+            }
+            let stable = if cfg!(miri) {
+                quiet_looks > 4000
+            } else {
+                last_change.elapsed().as_millis() > 1200 && quiet_looks > 100 && others_asleep_twice()
+            };
+            if stable && LOG.lock().unwrap().len() == last_len {
+                let log = LOG.lock().unwrap().clone();
+                let mut last: BTreeMap<u32, (u32, u64)> = BTreeMap::new();
+                for e in &log {
+                    last.insert(e.tid, (e.kind, e.a[0]));
+                }
+                let snap = q.verif_snapshot();
+                let parked: Vec<(u32, u64)> = last
+                    .iter()
+                    .filter(|(_, &(k, size))| k == ev::Q_WAIT_FULL && (snap.0 == 0 || snap.1 as u64 + size <= h.cap as u64))
+                    .map(|(&t, &(_, size))| (t, size))
+                    .collect();
+                if !parked.is_empty() && LOG.lock().unwrap().len() == last_len {
+                    lost_wakeup = Some(format!(
+                        "(thread, item size) {:?} parked in push although the queue holds {} items / {} bytes of capacity {}, the queue is open and no thread is runnable",
+                        parked, snap.0, snap.1, h.cap
+                    ));
+                    break;
+                }
+                quiet_looks = 0;
+                last_change = std::time::Instant::now();
+            }
+            if start.elapsed().as_millis() as u64 > wall_limit_ms {
+                stuck = Some("producers did not finish before the wall-clock limit (before close)".to_string());
+                break;
+            }
+            std::thread::yield_now();
         }
-        if start.elapsed().as_millis() as u64 > wall_limit_ms {
-            stuck = Some("producers did not finish before the wall-clock limit (before close)".to_string());
-            break;
+    }
+    if stuck.is_none() && lost_wakeup.is_none() && h.quiesce_before_close {
+        // Consumer 0 pulls until end of stream, so with correct wake-ups the queue becomes
+        // empty. State predicate for a lost wake-up: items queued, a thread parked in pull, no
+        // new event, and (natively) every other thread asleep in the kernel at two looks - a
+        // thread that was notified but has not run yet is runnable, not asleep.
+        let mut last_len = LOG.lock().unwrap().len();
+        let mut last_change = std::time::Instant::now();
+        let mut quiet_looks = 0u64;
+        loop {
+            if q.verif_snapshot().0 == 0 {
+                break;
+            }
+            let l = LOG.lock().unwrap().len();
+            if l != last_len {
+                last_len = l;
+                last_change = std::time::Instant::now();
+                quiet_looks = 0;
+            } else {
+                quiet_looks += 1;
+            }
+            let stable = if cfg!(miri) {
+                quiet_looks > 4000
+            } else {
+                last_change.elapsed().as_millis() > 1200 && quiet_looks > 100 && others_asleep_twice()
+            };
+            if stable && LOG.lock().unwrap().len() == last_len {
+                let log = LOG.lock().unwrap().clone();
+                let mut last: BTreeMap<u32, u32> = BTreeMap::new();
+                for e in &log {
+                    last.insert(e.tid, e.kind);
+                }
+                let waiting: Vec<u32> = last.iter().filter(|(_, &k)| k == ev::Q_WAIT_EMPTY).map(|(&t, _)| t).collect();
+                let snap = q.verif_snapshot();
+                if !waiting.is_empty() && snap.0 > 0 {
+                    lost_wakeup = Some(format!(
+                        "threads {:?} are parked in pull although {} items ({} bytes) are queued, the queue is open and no thread is runnable",
+                        waiting, snap.0, snap.1
+                    ));
+                }
+                break;
+            }
+            if start.elapsed().as_millis() as u64 > wall_limit_ms + h.stall_ms as u64 * 3 {
+                break;
+            }
+            std::thread::yield_now();
         }
-        std::thread::yield_now();
     }
     let mut post_close = Vec::new();
     if stuck.is_none() {
@@ -356,7 +510,34 @@ fn run_history(h: &History, wall_limit_ms: u64) -> Outcome {
         log,
         final_snapshot: q.verif_snapshot(),
         stuck,
+        lost_wakeup,
     }
+}
+
+/// Every thread of this process except the caller is asleep in the kernel (state S), at two looks
+/// 150 ms apart. Under Miri there is no /proc: the caller uses a yield count instead.
+fn others_asleep_twice() -> bool {
+    fn look() -> bool {
+        let me = std::fs::read_link("/proc/thread-self").ok().and_then(|p| p.file_name().map(|f| f.to_string_lossy().to_string()));
+        let Ok(rd) = std::fs::read_dir("/proc/self/task") else { return false };
+        for ent in rd.flatten() {
+            let name = ent.file_name().to_string_lossy().to_string();
+            if Some(&name) == me.as_ref() {
+                continue;
+            }
+            let Ok(stat) = std::fs::read_to_string(ent.path().join("stat")) else { continue };
+            let state = stat.rsplit(')').next().and_then(|r| r.trim_start().chars().next()).unwrap_or('R');
+            if state != 'S' {
+                return false;
+            }
+        }
+        true
+    }
+    if !look() {
+        return false;
+    }
+    std::thread::sleep(std::time::Duration::from_millis(150));
+    look()
 }
 
 fn is_effect(kind: u32) -> bool {
@@ -382,6 +563,9 @@ fn check(h: &History, o: &Outcome) -> Result<Checked, String> {
         if s.contains("still blocked in a queue wait after close") {
             return Err(format!("no-thread-stays-blocked: {}", s));
         }
+    }
+    if let Some(s) = &o.lost_wakeup {
+        return Err(format!("lost-wake-up: {}", s));
     }
     let n = h.programs.len();
     // 1. bind client operations to effect events, per thread
@@ -591,6 +775,7 @@ fn describe(h: &History) -> String {
                     Op::TryPull => "try_pull".to_string(),
                     Op::Drain => "pull*".to_string(),
                     Op::Pause(k) => format!("pause{}", k),
+                    Op::Sleep(ms) => format!("sleep{}ms", ms),
                 })
                 .collect();
             jstr(&ops.join(" "))
@@ -604,6 +789,7 @@ fn describe(h: &History) -> String {
             "close_after_admits",
             h.close_after_admits.map(|x| x.to_string()).unwrap_or("null".into()),
         ),
+        ("kept_open_until_empty", h.quiesce_before_close.to_string()),
     ])
 }
 
@@ -625,8 +811,24 @@ pub fn run(args: &Args, rep: &mut Report) {
             }
         }
         let mut rng = Rng::derive(args.seed, 0xC06, i);
-        let h = gen_history(&mut rng, small);
-        let o = run_history(&h, wall_limit);
+        let stall_ms: u32 = if small {
+            0
+        } else if args.tier_thorough && i % 4000 == 57 {
+            11_000
+        } else if i % 50 == 7 {
+            2_600
+        } else {
+            0
+        };
+        let burst = i % 8 == 3;
+        let h = if stall_ms > 0 {
+            gen_stall_history(&mut rng, stall_ms)
+        } else if burst {
+            gen_burst_history(&mut rng, small)
+        } else {
+            gen_history(&mut rng, small)
+        };
+        let o = run_history(&h, wall_limit + 8 * stall_ms as u64);
         rep.evaluations += 1;
         if let Some(s) = &o.stuck {
             if !s.contains("still blocked in a queue wait after close") {
@@ -650,6 +852,16 @@ pub fn run(args: &Args, rep: &mut Report) {
                 }
                 if h.close_after_admits.is_some() {
                     rep.count("histories_closed_while_producers_active", 1);
+                }
+                if h.quiesce_before_close {
+                    rep.count("histories_kept_open_until_the_consumers_emptied_the_queue", 1);
+                }
+                if burst {
+                    rep.count("histories_with_a_burst_of_pushes_onto_parked_consumers", 1);
+                }
+                if h.stall_ms > 0 {
+                    rep.count("histories_with_a_consumer_stalling_for_seconds_while_a_producer_is_blocked", 1);
+                    rep.max("longest_consumer_stall_ms", h.stall_ms as u64);
                 }
                 if signatures.insert(c.signature) && (c.blocked_full + c.blocked_empty > 0 || h.programs.len() > 2) {
                     rep.nontrivial(c.signature);
